@@ -43,6 +43,7 @@ def main(argv=None):
     ap.add_argument("--replay", default=None)
     ap.add_argument("--list", action="store_true")
     ap.add_argument("--keep", action="store_true")
+    ap.add_argument("--timeout", type=int, default=None)
     a = ap.parse_args(argv)
     tier = a.tier if a.tier in ("quick", "thorough") else "quick"
     try:
@@ -59,6 +60,9 @@ def main(argv=None):
         queries = mod.queries(tier)
         if a.only:
             queries = [q for q in queries if re.search(a.only, q.name)]
+        if a.timeout:
+            for q in queries:
+                q.timeout = a.timeout
         if a.list:
             for q in queries:
                 print(q.name, q.params)
